@@ -106,6 +106,7 @@ func newLexer(env *interp.ExecEnv, name string, r io.RuneScanner) *lexer {
 		name:    name,
 		r:       r,
 		token:   make(chan ast.Node),
+		done:    make(chan struct{}),
 		cancel:  make(chan struct{}),
 		heredoc: heredoc{c: make(chan struct{}, 1)},
 		line:    1,
@@ -133,9 +134,7 @@ func (l *lexer) Lex(lval *yySymType) int {
 func (l *lexer) run() {
 	defer func() {
 		close(l.token)
-		if l.done != nil {
-			close(l.done)
-		}
+		close(l.done)
 
 		if e := recover(); e != nil && e != bailout {
 			// re-panic
@@ -698,7 +697,7 @@ func (l *lexer) lexHeredoc() action {
 		}
 		return false
 	}
-	for h := l.heredoc.pop(); h != nil; h = l.heredoc.pop() {
+	for h := l.heredoc.pop(l.cancel); h != nil; h = l.heredoc.pop(l.cancel) {
 		l.mark(0)
 		// unquote
 		var word ast.Word
@@ -1465,7 +1464,7 @@ func (l *lexer) scanCmdSubst(r rune) bool {
 		ll.last.Store(ll.pos)
 		go ll.run()
 		yyParse(ll)
-		<-ll.done
+		ll.wait()
 		if ll.err != nil {
 			l.mu.Lock()
 			l.err = ll.err
@@ -1689,6 +1688,18 @@ func (l *lexer) unread() {
 	}
 }
 
+// wait stops the lexer goroutine and waits for it to exit.
+func (l *lexer) wait() {
+	l.mu.Lock()
+	select {
+	case <-l.cancel:
+	default:
+		close(l.cancel)
+	}
+	l.mu.Unlock()
+	<-l.done
+}
+
 func (l *lexer) Error(e string) {
 	l.error(l.last.Load().(ast.Pos), e)
 }
@@ -1767,7 +1778,7 @@ func (h *heredoc) push(r *ast.Redir) {
 	}
 }
 
-func (h *heredoc) pop() *ast.Redir {
+func (h *heredoc) pop(cancel <-chan struct{}) *ast.Redir {
 	for atomic.LoadUint32(&h.n) != 0 {
 		h.mu.Lock()
 		if n := len(h.stack); n != 0 {
@@ -1779,7 +1790,12 @@ func (h *heredoc) pop() *ast.Redir {
 		}
 		h.mu.Unlock()
 		// wait
-		<-h.c
+		select {
+		case <-h.c:
+		case <-cancel:
+			// the parser has given up; the redirection will not arrive
+			return nil
+		}
 	}
 	return nil
 }
